@@ -114,6 +114,12 @@ CHECKS = {
         "Trusted: the XML renderer in harness/src/checks/import_common.rs. Charges only on details with TxAmt given (an entry-level included charge without details cannot be balanced by any importer).",
         "4/C18",
     ),
+    "C17": (
+        "runtime monitor: random layered configuration documents and rewrite rules through ConfigSet::select and the real CSV importer; selected configuration and every imported transaction compared with a reference merge / rule fold",
+        "2*10^4 (quick) / 10^6 (thorough) configurations of 1-5 documents (substring, nested, equal-length and unrelated paths, random document order, partial scalar overrides, 0-3 rules each) with rules over a regex pool (capture groups, case variations, OR-lists of AND-maps, payee / account / pending combinations, rules that only match a rewritten payee): the selected ConfigEntry equals the documented merge field by field and rule by rule, and each of 1-6 records gets the payee, code, counter account (or the Unknown account by sign) and pending mark of the documented fold.",
+        "Trusted: the reference merge/fold in harness/src/checks/c17.rs; the regex crate itself (shared). At most one capturing matcher per AND-map.",
+        "4/C17",
+    ),
 }
 
 NOT_APPLICABLE = []
